@@ -22,8 +22,8 @@ RULE = (
     "(vlib/dictref.py) drives: (1) a structural differential of every message's member lists, order, required "
     "flags and nested groups as parsed by FIXSchema; (2) valid instances of EVERY message type (all required "
     "members, random optional ones, must-accept or enumerated values, groups with 1-2 items starting with the "
-    "first member, members in dictionary order, nested to the dictionary's depth; body-only and with full "
-    "header/trailer) which must validate; (3) single-fault mutants M1..M13 (missing required field / group, "
+    "first member, members in dictionary order, nested to the dictionary's depth; body-only, with the required "
+    "header/trailer fields, and with the header's repeating group as well) which must validate; (3) single-fault mutants M1..M13 (missing required field / group, "
     "unknown tag, tag not allowed, non-enumerated value, must-reject value, field as group, group as field, "
     "members swapped, foreign member, required member missing in an item, empty value, member of a header repeating group as a plain body tag; at top level and inside "
     "(nested) items), a seed-independent sweep of message type x applicable class plus Hypothesis-drawn "
@@ -104,12 +104,17 @@ def populate(rng, members, p_opt, depth=0):
     return out
 
 
-def header_entries(ref, msgtype):
+def header_entries(ref, msgtype, groups=False):
     vals = {"8": "FIX.4.4", "9": "100", "35": msgtype, "49": "SENDER", "56": "TARGET", "34": "7", "52": "20230921-14:00:00.123"}
     out = []
+    rng = random.Random(1)
     for m in ref.header:
         if m[0] == "field" and m[2]:
-            out.append(("f", m[1].tag, vals.get(m[1].tag) or pick_value(random.Random(1), m[1])))
+            out.append(("f", m[1].tag, vals.get(m[1].tag) or pick_value(rng, m[1])))
+        elif m[0] == "group" and groups:
+            # a repeating group of the <header> (FIX44.xml: NoHops) with two fully populated items
+            items = [[("f", m2[1].tag, pick_value(rng, m2[1])) for m2 in m[3] if m2[0] == "field"] for _ in range(2)]
+            out.append(("g", m[1].tag, items))
     return out
 
 
@@ -342,7 +347,7 @@ def one_case(acc, dname, msgtype, pseed, klass, pick, with_header, perm=None, ex
             return None
         entries, desc, path = r
         nested = len(path) > 0
-    full = (header_entries(ref, msgtype) if with_header else []) + entries + ([("f", "10", "123")] if with_header else [])
+    full = (header_entries(ref, msgtype, groups=(with_header == "groups")) if with_header else []) + entries + ([("f", "10", "123")] if with_header else [])
     try:
         msg = build(msgtype, full)
     except Exception as e:
@@ -437,7 +442,7 @@ def sweep(acc, dname, part, parts):
     for i, mt in enumerate(types):
         if i % parts != part:
             continue
-        for hdr in (False, True):
+        for hdr in (False, True, "groups"):
             for ps in (0, 1, 2, 5):
                 one_case(acc, dname, mt, ps, "valid", 0, hdr)
         for klass in CLASSES:
@@ -449,7 +454,7 @@ def sweep(acc, dname, part, parts):
 def hyp_shard(acc, n, seed):
     dn = sorted(DICTS)
     types = {d: sorted(load(d)[0].messages) for d in dn}
-    strat = st.tuples(st.sampled_from(dn), st.integers(0, 10**6), st.integers(0, 10**6), st.sampled_from(["valid", "valid"] + CLASSES), st.integers(0, 60), st.booleans())
+    strat = st.tuples(st.sampled_from(dn), st.integers(0, 10**6), st.integers(0, 10**6), st.sampled_from(["valid", "valid"] + CLASSES), st.integers(0, 60), st.sampled_from([False, True, True, "groups"]))
 
     def one(x):
         d, ti, ps, klass, pick, hdr = x
